@@ -271,3 +271,97 @@ _add(Cond('frame_via_T_series_rows', [('y0', 'int'), ('y1', 'int'), ('n', 'int')
         functions=['Frame._ufunc_binary_operator', 'TypeBlocks._ufunc_binary_operator'],
         bounds='2x2 (square) or 2x3 frame; via_T minus a Series of 1..2 labels symbolic in 10..12 (aligned frame square or not); concrete cells',
         route='Frame.via_T - Series: the Series is aligned with the row labels and applied down every column', timeout=300))
+
+
+# ---------------------------------------------------------------- results are checked through EVERY view of their index
+
+def index_views(env, ix, probes):
+    """labels, and what the index itself answers about them: position of every label, membership of every probe"""
+    from static_frame.core.exception import LocInvalid
+    labels = [env.obs(v) for v in ix.values.tolist()]
+    locs = []
+    for l in ix.values.tolist():
+        try:
+            locs.append(env.obs(ix.loc_to_iloc(l)))
+        except (KeyError, LocInvalid, IndexError):
+            locs.append('absent')
+    return [labels, locs, [bool(p in ix) for p in probes], len(ix)]
+
+
+def ref_index_views(labels, probes):
+    return [list(labels), list(range(len(labels))), [p in labels for p in probes], len(labels)]
+
+
+def body_auto_index_sets(env, n, m, op):
+    """Set algebra between default (auto-incremented, map-less) indices, as Series / Frames without explicit labels have."""
+    from vf import rt
+    n, m, op = concretize(n, 0, 4), concretize(m, 0, 4), ('union', 'intersection', 'difference')[concretize(op, 0, 2)]
+
+    def run():
+        sf = env.sf
+        a = sf.Series(env.array(list(range(10, 10 + n)), 'int64')).index
+        b = sf.Frame(env.array([[0] * m], 'int64')).columns if m else sf.Index(())
+        r = getattr(a, op)(b)
+        la, lb = list(range(n)), list(range(m))
+        want = {'union': [x for x in range(5) if x in la or x in lb], 'intersection': [x for x in la if x in lb], 'difference': [x for x in la if x not in lb]}[op]
+        probes = list(range(6))
+        got = index_views(env, r, probes)
+        got[0] = sorted(got[0])
+        # a Series labelled with the result selects by LABEL
+        s = sf.Series(env.array([100 + l for l in r.values.tolist()], 'int64'), index=r)
+        sel = []
+        for l in want:
+            try:
+                sel.append(env.obs(s.loc[l]))
+            except (KeyError, IndexError):
+                sel.append('absent')
+        exp = ref_index_views(want, probes)
+        if op != 'difference' or True:
+            exp_locs = exp[1]
+        # positions are those of the labels IN THE RESULT's own order (checked pairwise: label i sits at position i)
+        return [got[0], got[2], got[3], [env.obs(r.loc_to_iloc(l)) == i for i, l in enumerate(r.values.tolist())], sel], \
+               [want, exp[2], exp[3], [True] * len(want), [100 + l for l in want]]
+    return rt.untraced(run)
+
+
+_add(Cond('auto_index_set_algebra', [('n', 'int'), ('m', 'int'), ('op', 'int')], body_auto_index_sets, ranges={'n': (0, 4), 'm': (0, 4), 'op': (0, 2)},
+        functions=['IndexBase.union', 'IndexBase.difference', 'Index._ufunc_set'],
+        bounds='two default (auto-incremented) indices of symbolic lengths 0..4 (a Series index and Frame columns); union / intersection / difference (symbolic)',
+        route='set algebra on default indices: exactly the prescribed labels; the RESULT answers membership and loc_to_iloc by label (label i of the result sits at position i) and a Series labelled with it selects by label', timeout=300))
+
+
+def body_frame_series_unsorted(env, perm, y0, y1, y2, ns, opsel):
+    """Frame op Series with the Frame's columns in ANY order and the Series over a subset / permutation / superset."""
+    from vf import rt
+    perms = ((0, 1, 2), (0, 2, 1), (1, 0, 2), (1, 2, 0), (2, 0, 1), (2, 1, 0))
+    fcols = list(perms[concretize(perm, 0, 5)])
+    ls = [concretize(y0, 0, 3), concretize(y1, 0, 3), concretize(y2, 0, 3)][:concretize(ns, 2, 3)]
+    opname = ('add', 'sub', 'lt')[concretize(opsel, 0, 2)]
+
+    def run():
+        sf = env.sf
+        fn = OPS[opname]
+        f = sf.Frame.from_items(((c, env.array([10 * c + 1, 10 * c + 2], 'int64')) for c in fcols), index=[100, 101])
+        s = sf.Series(env.array([1000 * (k + 1) for k in range(len(ls))], 'int64'), index=ls)
+        r = fn(f, s)
+        vs = {l: 1000 * (k + 1) for k, l in enumerate(ls)}
+        labels = sorted(set(fcols) | set(ls))
+        cidx = [env.obs(c) for c in r.columns.values.tolist()]
+        vals = r.values.tolist()
+        got = sorted([[cidx[j], [env.obs(vals[i][j]) for i in range(2)]] for j in range(len(cidx))], key=lambda t: t[0])
+        miss = False if opname == 'lt' else M
+        exp = [[c, [(fn(10 * c + 1 + i, vs[c]) if (c in fcols and c in vs) else miss) for i in range(2)]] for c in labels]
+        out = [got, env.obs(r.index.values.tolist()), index_views(env, r.columns, list(range(5)))[1:]]
+        ref = [exp, [100, 101], ref_index_views(cidx, list(range(5)))[1:]]
+        if fcols == ls:
+            out.append(cidx); ref.append(fcols)     # equal indices keep their order
+        return out, ref
+    return rt.untraced(run)
+
+
+_add(Cond('frame_binop_series_unsorted_columns', [('perm', 'int'), ('y0', 'int'), ('y1', 'int'), ('y2', 'int'), ('ns', 'int'), ('opsel', 'int')], body_frame_series_unsorted,
+        ranges={'perm': (0, 5), 'y0': (0, 3), 'y1': (0, 3), 'y2': (0, 3), 'ns': (2, 3), 'opsel': (0, 2)},
+        pre=['y0 != y1', 'ns == 2 or (y2 != y0 and y2 != y1)', 'ns == 3 or y2 == 0', 'opsel == 0 or perm in (0, 3)'],
+        functions=['Frame._ufunc_binary_operator'],
+        bounds='2x3 frame whose column labels 0,1,2 come in any of the 6 orders (symbolic); Series over 2..3 distinct labels symbolic in 0..3 in any order (subset / permutation / superset of the columns); +, -, < (symbolic); concrete cells',
+        route='Frame op Series: every column paired with the Series value of ITS label whatever the order of either side; the result columns answer membership / loc_to_iloc consistently', timeout=400))
